@@ -119,3 +119,28 @@ func zzH_C05_in() {
 	verifAssert(len(out.got) == 0, "typed input echoed locally by the wrapper")
 	verifReach("input")
 }
+
+// a finished-transfer transcript contains the whole trigger text but is not a genuine trigger: it passes through
+// unmodified, the bytes in front of it included, and starts nothing
+func zzH_C05_lookalike() {
+	t := zzMakeTrigger(zzPrefix6(verifBound("PREFIX")), true)
+	buf := t.buf
+	words := []string{"#CFG:", "Saved", "Cancelled", "Stopped", "Interrupted"}
+	w := words[verifNondetRange(0, 4)]
+	gap := verifNondetRange(0, 3)
+	for i := 0; i < gap; i++ {
+		buf = append(buf, ' ')
+	}
+	buf = append(buf, w...)
+	buf = append(buf, '\r', '\n')
+	want := zzClone6(buf)
+	out, in := &zzCap5{}, &zzCap5{}
+	f := &TrzszFilter{clientOut: out, serverIn: in, serverOut: &zzFeed5{chunks: [][]byte{buf}}}
+	f.options.EnableZmodem = verifNondetBool()
+	go f.wrapOutput()
+	verifQuiesce()
+	zzSame5(out.got, want, "to terminal")
+	verifAssert(f.trigger == nil, "scroll-back of a finished transfer started a transfer")
+	verifAssert(len(in.got) == 0, "wrapper wrote to the remote side on its own")
+	verifReach("transcript")
+}
